@@ -61,6 +61,9 @@ pub struct Probes {
     pub successes: u64,
     pub failures: u64,
     pub skipped_ops: u64,
+    pub reparse_checked: u64,
+    pub clone_checked: u64,
+    pub max_live_results: u64,
 }
 
 pub struct Report {
@@ -286,6 +289,7 @@ pub fn execute(sc: &Scenario, grammars: &[Grammar], verbose: bool) -> Report {
                     // I2: repeating the operation on the same object
                     if let Some(of) = reparse_of {
                         if let Some(orig) = live.get(&of) {
+                            probes.reparse_checked += 1;
                             if orig.res.eq_dyn(new.res.as_ref()) != Some(true) || new.res.eq_dyn(orig.res.as_ref()) != Some(true) {
                                 viol("reparse-unequal", id, json!({"key": rec.key, "first": orig.dbg, "second": new.dbg}), &mut violations);
                             }
@@ -296,6 +300,7 @@ pub fn execute(sc: &Scenario, grammars: &[Grammar], verbose: bool) -> Report {
                     }
                     check_pairs(&new, id, &live, &mut violations, &mut probes);
                     live.insert(id, new);
+                    probes.max_live_results = probes.max_live_results.max(live.len() as u64);
                 }
                 parses.insert(id, rec);
             }
@@ -304,6 +309,7 @@ pub fn execute(sc: &Scenario, grammars: &[Grammar], verbose: bool) -> Report {
                     probes.skipped_ops += 1;
                     continue;
                 };
+                probes.clone_checked += 1;
                 let c = orig.res.clone_box();
                 let ci = orig.inner.as_ref().map(|i| i.clone_box());
                 let dbg = c.debug();
